@@ -2809,11 +2809,12 @@ bn_sqrt5(bn_p bn) {
 
 
 /* Shared code for COMB mult. */
-/* Get bits from bit_offset in all windows and return result as bn_digit_t. */
-static inline bn_digit_t
+/* Get bits from bit_offset in all windows and return result: wnd_bits bits,
+ * window may be wider than digit (8 bit digits), so not bn_digit_t. */
+static inline size_t
 bn_combo_column_get(bn_p bn, size_t bit_off, size_t wnd_bits, size_t wnd_count) {
 	register size_t i, off, bits_cnt;
-	register bn_digit_t res = 0;
+	register size_t res = 0;
 
 	if (NULL == bn)
 		return (res);
